@@ -484,17 +484,38 @@ fn run_gear(file: &[u8], cf: &[&str]) -> String {
     let Some(g) = GearSets::from_existing(file) else { return "none".into() };
     let f = dump_gear(&g);
     let w = diff_or_same(file, g.write_to_buffer());
-    let d = match build_sets(cf[4]) {
+    let built = build_sets(cf[4]);
+    let d = match &built {
         None => "bad-case".to_string(),
         Some(None) => "skip".to_string(),
         Some(Some(sets)) => {
             let mut b = g.clone();
             b.current_gearset = cf[1].parse().unwrap_or(0);
-            b.gearsets = sets;
+            b.gearsets = sets.clone();
             diff_or_same(file, b.write_to_buffer())
         }
     };
-    format!("F[{}]|W[{}]|D[{}]", f, w, d)
+    // the same value with the Vec cut behind its last used position, and with three unused
+    // positions appended: the writer must still emit the fixed 100-slot table
+    let t = match &built {
+        None => "bad-case".to_string(),
+        Some(None) => "skip".to_string(),
+        Some(Some(sets)) => {
+            let mut b = g.clone();
+            b.current_gearset = cf[1].parse().unwrap_or(0);
+            let mut short = sets.clone();
+            while matches!(short.last(), Some(None)) {
+                short.pop();
+            }
+            b.gearsets = short;
+            let a = diff_or_same(file, b.write_to_buffer());
+            let mut long = sets.clone();
+            long.extend([None, None, None]);
+            b.gearsets = long;
+            format!("{},{}", a, diff_or_same(file, b.write_to_buffer()))
+        }
+    };
+    format!("F[{}]|W[{}]|D[{}]|T[{}]", f, w, d, t)
 }
 
 pub fn run(case: &str, input: &str) -> String {
